@@ -298,8 +298,10 @@ def main():
     front = [b[1] for b in both]
     pre = "Definition pid_of (n : string) : option Z := pd_get n amp_names."
     from vlib import cstr
-    terms = [("(let r := parse_text " + cstr(c["text"]) + " in VList [vtext r; match r with Some f => vrres (read_ampgen pid_of 40 "
-              + cbool(c["cart0"]) + " f) | None => VErr \"UnexpectedInput\" end])") for c in cases]
+    # the text is read in its own command (a large text inside the printed expression makes Eval vm_compute many times slower)
+    terms = [("Definition r@ := Eval vm_compute in parse_text " + cstr(c["text"]) + ".",
+              "VList [vtext r@; match r@ with Some f => vrres (read_ampgen pid_of 40 " + cbool(c["cart0"]) + " f) | None => VErr \"UnexpectedInput\" end]")
+             for c in cases]
     both_m = vlib.run_model("C17", ["Lib.PyDict", "Gen.GenAmp", "Amp.Syntax", "Amp.Read", "Amp.Text"], "fun v : val => v", terms, shard=25, preamble=pre)
     mfront = [m[0] for m in both_m]
     model = [m[1] for m in both_m]
